@@ -208,6 +208,8 @@ def run_solver_case(ctx, case):
         if state["tracker"] is None:
             state["tracker"] = Tracker(inst, dispatcher)
         r = state["tracker"].r
+        if "created_at" not in state:
+            state["created_at"] = len(r.history)   # observers of observer-based rules are born here
         state["steps"] += 1
         if state["steps"] > ref0.num_ops + 1:
             raise RuntimeError("step budget exceeded")
@@ -233,7 +235,8 @@ def run_solver_case(ctx, case):
         op = real_rule(dispatcher)
         ctx.count("steps_checked")
         w = {"rule": rule, "filter": names, "history": list(r.history), "available": avail,
-             "selected": getattr(op, "operation_id", repr(op))}
+             "selected": getattr(op, "operation_id", repr(op)),
+             "observer_created_at": state["created_at"]}
         if not any(op is ops[a] for a in avail):
             ctx.violation("c04_selected_operation_not_available", w)
             state["last_op"] = op
